@@ -362,7 +362,7 @@ class NamesModule:
             chosen = consts[:r.randint(1, 3)]
             if r.random() < 0.3:
                 chosen.append(chosen[0])              # repeated case label
-            if self.bad("switch-negative-label-on-unsigned", 0.02):
+            if tbits >= 32 and self.bad("switch-negative-label-on-unsigned", 0.06):
                 chosen.append(-1)
             for c in chosen:
                 fn = self.snake(used)
